@@ -308,8 +308,10 @@ def run_real(chart, ops, host="plain", spied=False, builder=None):
             out.append("raise log=%s" % fmt_log(log))
             break
         except AssertionError:
-            out.append("assert log=%s" % fmt_log(log))
-            break
+            # child_state(P) with P not enclosing the current state: the caller may catch this and go on
+            out.append("assert state=%d temp=%d log=%s" % (state_id(hsm.state.fun, inv), state_id(hsm.temp.fun, inv), fmt_log(log)))
+            names.append({"state_name": getattr(hsm, "state_name", None),
+                          "state_fn": state_id(getattr(hsm, "state_fn", None), inv), "current_state": None})
         except Diverged:
             out.append("diverge log=%s" % fmt_log(log))
             break
